@@ -496,7 +496,7 @@ def cd4(ctx):
         ctx.check(tab == want, 'decode-table:%s' % adt.split('::')[-1], b.span, 'byte -> %s table equals the enum discriminants %s' % (adt.split('::')[-1], want),
                   'byte -> %s decoding table %s differs from the discriminants written by the encoder %s' % (adt.split('::')[-1], tab, want))
     # (2) frame_type(first,last) vs is_first / is_last
-    ft = [b for b in ctx.f.bodies.values() if b.ret_ty == FT and b.arg_count == 2 and b.local_ty(1) == 'bool' and b.local_ty(2) == 'bool']
+    ft = [b for b in list(ctx.f.bodies.values()) + list(ctx.f.dropped_helpers) if b.ret_ty == FT and b.arg_count == 2 and b.local_ty(1) == 'bool' and b.local_ty(2) == 'bool']
     isf = ctx.fn('frame::header::FrameType::is_first_frame_of_record')
     isl = ctx.fn('frame::header::FrameType::is_last_frame_of_record')
     if not ft or not isf or not isl:
